@@ -7,7 +7,7 @@ import copy
 
 from smartquery.custom_types import Decimal
 from smartquery.exceptions import ParserError, OpsExecutionLimitExceededError
-from smartquery.functions import _dict_key_cast, _multiply, NUMERIC_TYPES
+from smartquery.functions import _dict_key_cast, _multiply, _check_concat_size
 from smartquery.utils import safe_cast
 from smartquery.vm_state import VMState
 
@@ -66,6 +66,7 @@ class BinOp(Op):
         if self.op == '+':
             if isinstance(op1, str) and not isinstance(op2, str):
                 op2 = str(op2)
+            _check_concat_size(op1, op2)
             return op1 + op2
         elif self.op == '-':
             return op1 - op2
@@ -149,6 +150,7 @@ class ShortOp(Op):
             raise ParserError(f'Undefined variable {self.name}')
 
         if self.op == '+=':
+            _check_concat_size(state.names[self.name], value)
             state.names[self.name] += value
         elif self.op == '-=':
             state.names[self.name] -= value
